@@ -119,6 +119,10 @@ func ruleC02Scan(p *Prog, r *Res) {
 				if isFieldSel(g.Pkg.TypesInfo, base, "resultData", "streams") {
 					writers++
 					okw := g.Lit == cloLit
+					// a literal nested in the owner closure (a local helper such as moveSlot) is part of the owner
+					if !okw && g.Lit != nil && cloLit != nil && cloLit.Pos() <= g.Lit.Pos() && g.Lit.End() <= cloLit.End() {
+						okw = true
+					}
 					if !okw && g.Lit == nil && g.Decl != nil && g.Decl.Recv != nil {
 						// a method of resultData that only the owner closure calls is part of the owner
 						if rn := namedOf(recvTypeOfFn(g)); rn != nil && rn.Obj().Name() == "resultData" {
